@@ -87,7 +87,11 @@ def pathological(rng: random.Random, n_long: int) -> List[Tuple[str, Any, str]]:
     for t in ("{1 can}of spam", "{2}of the x", "{1 kg}OF x", "{ 3 big }Of  the y", "x = {1 can}of spam\nfry({2}of the x)",
               "2g'x'", "1/2of x", "50%of x", "rest'of'x", "remaining{x}", "3 tsp{2}x", "x:=y", "a,b=c", "f(x,)", "f(,x)",
               "{}", "spam {}", "fry({} eggs, x)", "'' x", '"" = y', "{1/02 kg} x", "1 1/02kg x", "{\\}", "x\rx = y\rx = z",
-              "foo = spam\rfoo = eggs", "a = 1 b\x0ca = 2 c", "a = 1 b\u2028a = 2 c"):
+              "foo = spam\rfoo = eggs", "a = 1 b\x0ca = 2 c", "a = 1 b\u2028a = 2 c",
+              # brace expressions where only static text is allowed (free-form units), empty / blank names
+              "{1 {2}l tubs} ice cream", "{1/2 'tin' {400}g } tomatoes, chopped", "stock = boil(water, {3 cubes {10 g}} of stock)",
+              "{2 {}} x", "fry({}, eggs)", "'' = boil(spam)", "' ' = boil(spam)", '"  "', "{ } , {\t}", "fry('', \"\")",
+              "x = {0} y\n{0} = z", "{0}", "{0} = {0}"):
         out.append(("rg", [t.encode().decode("unicode_escape") if "\\" in t else t], "rg-adjacent-" + t[:12]))
         out.append(("md", "    " + t.replace("\n", "\n    ") + "\n", "md-adjacent-" + t[:12]))
     # many juxtaposed string segments (no nesting at all): F22, a RecursionError until fix 971a551
